@@ -104,7 +104,7 @@ def directed_shapes(ctx):
             src.append("%s    entered.append(x)" % ind)
             src.append("%s    return x" % ind)
         def positive(x):
-            return x > 0
+            return x is not None and x > 0
 
         g = {"icontract": icontract, "entered": entered, "positive": positive}
         exec("\n".join(src), g)
@@ -112,7 +112,10 @@ def directed_shapes(ctx):
 
     calls = [("a", (1,), {"x": -5}, True), ("a", (-1,), {"x": 5}, False), ("a", (1,), {"x": -5, "z": 0}, True),
              ("b", (1, -2, -3), {}, True), ("b", (-1, 2, 3), {"k": 4}, False), ("b", (2,), {"k": -1}, True),
-             ("c", (), {}, True), ("c", (-1,), {"x": 3}, False), ("c", (), {"x": -3}, True), ("c", (5, 6), {"k": -1, "y2": 0}, True)]
+             ("c", (), {}, True), ("c", (-1,), {"x": 3}, False), ("c", (), {"x": -3}, True), ("c", (5, 6), {"k": -1, "y2": 0}, True),
+             # None passed explicitly where the parameter has another default: the body receives None, so does the condition
+             ("c", (None,), {}, False), ("c", (None, 1), {"k": None}, False), ("c", (3, None), {"k": None}, True),
+             ("b", (None,), {}, False), ("b", (4, None), {"k": None}, True)]
     for is_async in (False, True):
         for as_method in (False, True):
             obj = build(is_async, as_method)
